@@ -181,8 +181,8 @@ prop(
     "C18",
     "fault_enumeration",
     "single faults enumerated per valid file: truncation at every header/data section boundary +-{0,1,2} and at random offsets; every decimal number of the header replaced by {0,1,v+1,v-1,99999999999,2^64,2^128,-5,abc,empty}; range endpoints swapped; every header line deleted / duplicated; keys renamed, colon removed, value emptied; section tags damaged; every header quote removed / replaced, a quote inserted before every key and value; odd and non-UTF-8 bytes in the header; tree bodies blanked in place; byte substitutions in the data part; 37 structural faults of every tree/question text section and 7 of every window section of generated voices (unknown question, deleted/renamed QS, child redirected to a missing node, duplicate node id, leaf without / with zero / huge / overflowing number, missing braces, bad state index, re-quoting, bad pattern characters, empty pattern list, swapped / extra / missing tokens, non-UTF-8, NUL, CRLF, single-node tree pointing at a node, empty section); sampled double faults; random garbage. Files: generated voices (all faults) and the bundled voice (thinned in the quick tier). Observed per fault: Ok / Err class / panic site, peak heap and largest request from a counting allocator, process death. non-trivial = outcome differs from the clean file; distinct by (fault class, section, outcome)",
-    [st("checked", death_is_violation=True)],
-    [st("checked", death_is_violation=True), st("release", death_is_violation=True), st("asan", name="asan", args=["--sub", "generated", "--scale", "0.1"], env=dict(ASAN_ENV, JBV_NO_RLIMIT="1"), canary="asan", death_is_violation=True),
+    [st("checked", death_is_violation=True, env={"JBV_WATCHDOG_S": "20"})],
+    [st("checked", death_is_violation=True, env={"JBV_WATCHDOG_S": "20"}), st("release", death_is_violation=True, env={"JBV_WATCHDOG_S": "20"}), st("asan", name="asan", args=["--sub", "generated", "--scale", "0.1"], env=dict(ASAN_ENV, JBV_NO_RLIMIT="1"), canary="asan", death_is_violation=True),
      st("miri", name="miri", args=[], env={"MIRIFLAGS": "-Zmiri-disable-isolation -Zmiri-deterministic-floats", "JBV_MIRI": "1", "JBV_WATCHDOG_S": "7200"}, canary="miri", death_is_violation=True, shards=8, timeout_s=3 * 3600),
      st("release", name="memcheck", args=["--sub", "generated", "--scale", "0.05"], env={"JBV_NO_RLIMIT": "1", "JBV_WATCHDOG_S": "1800"}, wrapper=["valgrind", "--error-exitcode=99", "-q", "--leak-check=no"], canary="asan", death_is_violation=True)],
     ["RLIMIT_AS 4 GiB per shard; heap bound 64 x file size + 16 MiB measured by a counting global allocator in the harness", "a case that kills or hangs its process is re-run alone before it is reported"],
